@@ -32,7 +32,8 @@ type Op struct {
 // Unit is an op in autocommit, or a list of ops in an explicit transaction ended by commit or rollback.
 type Unit struct {
 	Ops []Op   `json:"ops"`
-	Tx  string `json:"tx"` // "", "commit", "rollback"
+	Tx  string `json:"tx"`            // "", "commit", "rollback"
+	Ctx string `json:"ctx,omitempty"` // mixed mode: "G" inside the global transaction, "P" plain, "GP" prepared inside / executed after
 }
 
 func (u Unit) Name() string {
@@ -40,16 +41,21 @@ func (u Unit) Name() string {
 	for _, o := range u.Ops {
 		n = append(n, o.Name)
 	}
-	if u.Tx == "" {
-		return strings.Join(n, ",")
+	pre := ""
+	if u.Ctx != "" {
+		pre = u.Ctx + ":"
 	}
-	return "tx[" + strings.Join(n, ",") + "]" + u.Tx
+	if u.Tx == "" {
+		return pre + strings.Join(n, ",")
+	}
+	return pre + "tx[" + strings.Join(n, ",") + "]" + u.Tx
 }
 
 type Case struct {
 	Units  []Unit `json:"units"`
-	Mode   string `json:"mode"`   // outside | inside (a global transaction)
+	Mode   string `json:"mode"`   // outside | inside (a global transaction) | mixed (global and plain work on one handle)
 	Params string `json:"params"` // ip | noip (interpolateParams)
+	Pinned bool   `json:"pinned,omitempty"`
 }
 
 type Located struct {
@@ -161,12 +167,12 @@ func Enumerate(thorough bool, yield func(idx int, c Case)) int {
 				continue // A6: AT mode requires interpolateParams
 			}
 			for _, u := range us {
-				yield(idx, Case{[]Unit{u}, mode, params})
+				yield(idx, Case{[]Unit{u}, mode, params, false})
 				idx++
 			}
 			for _, a := range us {
 				for _, b := range second {
-					yield(idx, Case{[]Unit{a, b}, mode, params})
+					yield(idx, Case{[]Unit{a, b}, mode, params, false})
 					idx++
 				}
 			}
@@ -186,10 +192,40 @@ func Enumerate(thorough bool, yield func(idx int, c Case)) int {
 				for _, a := range small {
 					for _, b := range small {
 						for _, c := range small {
-							yield(idx, Case{[]Unit{a, b, c}, mode, params})
+							yield(idx, Case{[]Unit{a, b, c}, mode, params, false})
 							idx++
 						}
 					}
+				}
+			}
+		}
+	}
+	// mixed: global and plain work alternate on one handle (pool or pinned connection)
+	pick := func(name string) Op {
+		for _, o := range ops() {
+			if o.Name == name {
+				return o
+			}
+		}
+		panic(name)
+	}
+	gUnits := []Unit{
+		{Ops: []Op{pick("upd-bound")}, Ctx: "G"}, {Ops: []Op{pick("ins-bound")}, Ctx: "G"}, {Ops: []Op{pick("del-bound")}, Ctx: "G"},
+		{Ops: []Op{pick("upd-bound")}, Tx: "commit", Ctx: "G"}, {Ops: []Op{pick("ins-lit"), pick("upd-bound")}, Tx: "commit", Ctx: "G"}, {Ops: []Op{pick("upd-bound")}, Tx: "rollback", Ctx: "G"},
+		{Ops: []Op{pick("q-forupdate")}, Ctx: "G"}, {Ops: []Op{pick("prep-upd")}, Ctx: "GP"}, {Ops: []Op{pick("prep-q")}, Ctx: "GP"},
+	}
+	pUnits := []Unit{
+		{Ops: []Op{pick("upd-bound")}, Ctx: "P"}, {Ops: []Op{pick("upd-many")}, Ctx: "P"}, {Ops: []Op{pick("ins-bound")}, Ctx: "P"}, {Ops: []Op{pick("q-all")}, Ctx: "P"},
+		{Ops: []Op{pick("upd-bound")}, Tx: "commit", Ctx: "P"}, {Ops: []Op{pick("prep-upd")}, Ctx: "P"}, {Ops: []Op{pick("del-lit")}, Ctx: "P"},
+	}
+	for _, params := range []string{"ip", "noip"} {
+		for _, pinned := range []bool{false, true} {
+			for _, g := range gUnits {
+				for _, p := range pUnits {
+					yield(idx, Case{[]Unit{g, p}, "mixed", params, pinned})
+					idx++
+					yield(idx, Case{[]Unit{p, g, p}, "mixed", params, pinned})
+					idx++
 				}
 			}
 		}
@@ -303,35 +339,112 @@ func runOp(ctx context.Context, r runner, o Op) (res OpResult) {
 	return res
 }
 
-func runUnits(ctx context.Context, db *sql.DB, us []Unit) []OpResult {
+type handle interface {
+	runner
+	BeginTx(ctx context.Context, opts *sql.TxOptions) (*sql.Tx, error)
+}
+
+func runUnit(ctx context.Context, db handle, u Unit) []OpResult {
+	var out []OpResult
+	if u.Tx == "" {
+		for _, o := range u.Ops {
+			out = append(out, runOp(ctx, db, o))
+		}
+		return out
+	}
+	tx, err := db.BeginTx(ctx, nil)
+	if err != nil {
+		return append(out, OpResult{Err: "begin: " + err.Error()})
+	}
+	for _, o := range u.Ops {
+		out = append(out, runOp(ctx, tx, o))
+	}
+	var e2 error
+	if u.Tx == "commit" {
+		e2 = tx.Commit()
+	} else {
+		e2 = tx.Rollback()
+	}
+	r := OpResult{}
+	if e2 != nil {
+		r.Err = u.Tx + ": " + e2.Error()
+	}
+	return append(out, r)
+}
+
+func runUnits(ctx context.Context, db handle, us []Unit) []OpResult {
 	var out []OpResult
 	for _, u := range us {
-		if u.Tx == "" {
-			for _, o := range u.Ops {
-				out = append(out, runOp(ctx, db, o))
-			}
-			continue
-		}
-		tx, err := db.BeginTx(ctx, nil)
-		if err != nil {
-			out = append(out, OpResult{Err: "begin: " + err.Error()})
-			continue
-		}
-		for _, o := range u.Ops {
-			out = append(out, runOp(ctx, tx, o))
-		}
-		var e2 error
-		if u.Tx == "commit" {
-			e2 = tx.Commit()
-		} else {
-			e2 = tx.Rollback()
-		}
-		r := OpResult{}
-		if e2 != nil {
-			r.Err = u.Tx + ": " + e2.Error()
-		}
-		out = append(out, r)
+		out = append(out, runUnit(ctx, db, u)...)
 	}
+	return out
+}
+
+// runMixed runs G units inside one global transaction each (proxy side) and P units plainly; a GP unit prepares its
+// statement under the global context and executes it after the global transaction has ended.
+func runMixed(db handle, us []Unit, proxied bool, marks *[]int, jlen func() int) []OpResult {
+	var out []OpResult
+	plain := context.Background()
+	for _, u := range us {
+		*marks = append(*marks, jlen())
+		switch {
+		case u.Ctx == "GP":
+			o := u.Ops[0]
+			var st *sql.Stmt
+			var perr error
+			prep := func(ctx context.Context) error {
+				st, perr = db.PrepareContext(ctx, o.SQL)
+				return nil
+			}
+			if proxied {
+				tm.WithGlobalTx(plain, &tm.GtxConfig{Name: "c16-mixed"}, prep)
+			} else {
+				prep(plain)
+			}
+			res := OpResult{}
+			if perr != nil {
+				res.Err = perr.Error()
+			} else {
+				func() {
+					defer func() {
+						if p := recover(); p != nil {
+							res.Panic, res.Err = fmt.Sprint(p), "panic"
+						}
+					}()
+					if o.Kind == "prep-query" {
+						rows, err := st.QueryContext(plain, o.Args...)
+						if err != nil {
+							res.Err = err.Error()
+						} else {
+							var e2 error
+							res.Cols, res.Rows, e2 = readRows(rows)
+							if e2 != nil {
+								res.Err = e2.Error()
+							}
+						}
+					} else {
+						rs, err := st.ExecContext(plain, o.Args...)
+						if err != nil {
+							res.Err = err.Error()
+						} else {
+							res.Affected, _ = rs.RowsAffected()
+							res.LastID, _ = rs.LastInsertId()
+						}
+					}
+					st.Close()
+				}()
+			}
+			out = append(out, res)
+		case u.Ctx == "G" && proxied:
+			tm.WithGlobalTx(plain, &tm.GtxConfig{Name: "c16-mixed"}, func(ctx context.Context) error {
+				out = append(out, runUnit(ctx, db, u)...)
+				return nil
+			})
+		default:
+			out = append(out, runUnit(plain, db, u)...)
+		}
+	}
+	*marks = append(*marks, jlen())
 	return out
 }
 
@@ -372,6 +485,9 @@ func initAll(e *sys.Env) error {
 }
 
 type sideRun struct {
+	marks   []int // mixed mode: journal length at each unit boundary
+	openTx  int
+	locks   int
 	res     []OpResult
 	journal []journalLine
 	raw     []memdb.Entry
@@ -384,16 +500,34 @@ func runSide(e *sys.Env, db *sql.DB, c Case, global bool) (sideRun, error) {
 	if err := initAll(e); err != nil {
 		return sr, err
 	}
-	if global {
+	var h handle = db
+	var conn *sql.Conn
+	if c.Pinned {
+		cn, err := db.Conn(context.Background())
+		if err != nil {
+			return sr, err
+		}
+		conn, h = cn, cn
+	}
+	jlen := func() int { return len(lines(e.Srv.Journal())) }
+	switch {
+	case c.Mode == "mixed":
+		sr.res = runMixed(h, c.Units, db != e.Bare, &sr.marks, jlen)
+	case global:
 		tm.WithGlobalTx(context.Background(), &tm.GtxConfig{Name: "c16"}, func(ctx context.Context) error {
-			sr.res = runUnits(ctx, db, c.Units)
+			sr.res = runUnits(ctx, h, c.Units)
 			return nil
 		})
-	} else {
-		sr.res = runUnits(context.Background(), db, c.Units)
+	default:
+		sr.res = runUnits(context.Background(), h, c.Units)
+	}
+	if conn != nil {
+		conn.Close()
 	}
 	sr.raw = e.Srv.Journal()
 	sr.journal = lines(sr.raw)
+	sr.openTx = e.Srv.OpenTxCount()
+	sr.locks = e.Srv.HeldLocks()
 	snap := atrun.BusinessTables(e.Srv.Snapshot())
 	sr.state = snap.String()
 	for _, ev := range e.TC.Events() {
@@ -464,10 +598,21 @@ func evalCase(r *rep.Run, envs map[string]*sys.Env, c Case, idx int) {
 		db   *sql.DB
 	}
 	sides := []side{{"at", e.AT}}
-	if c.Mode == "outside" {
+	if c.Mode == "outside" || c.Mode == "mixed" {
 		sides = append(sides, side{"xa", e.XA})
 	}
 	for _, sd := range sides {
+		if c.Mode == "mixed" && sd.name == "xa" {
+			hasG := false
+			for _, u := range c.Units {
+				if u.Ctx == "G" {
+					hasG = true // XA inside a global transaction is C17's subject
+				}
+			}
+			if hasG {
+				continue
+			}
+		}
 		got, err := runSide(e, sd.db, c, c.Mode == "inside")
 		if err != nil {
 			r.Broken = err.Error()
@@ -493,10 +638,15 @@ func evalCase(r *rep.Run, envs map[string]*sys.Env, c Case, idx int) {
 				fmt.Printf("  res[%d] bare=%s\n         prox=%s\n", i, resText(bare.res[i]), resText(got.res[i]))
 			}
 		}
+		// A6: AT mode needs interpolateParams=true; without it only the plain units of a mixed program are compared
+		lax := c.Mode == "mixed" && c.Params == "noip"
 		// results
 		for i := range bare.res {
 			if i >= len(got.res) {
 				break
+			}
+			if lax {
+				break // results depend on what the (unsupported) global units did; only hygiene and the plain units' statements are compared
 			}
 			if resText(bare.res[i]) != resText(got.res[i]) {
 				opn := opNameAt(c.Units, i)
@@ -511,8 +661,29 @@ func evalCase(r *rep.Run, envs map[string]*sys.Env, c Case, idx int) {
 				break
 			}
 		}
-		if bare.state != got.state {
+		if bare.state != got.state && !lax {
 			r.Violate(fmt.Sprintf("state/%s/%s/%s/%s", c.Mode, sd.name, c.Params, firstDiffOp(c.Units, bare, got)), "the same committed data as the plain driver", loc, fmt.Sprintf("bare: %s\nproxy: %s\n%s", bare.state, got.state, trace()))
+		}
+		if got.openTx != bare.openTx || got.locks != bare.locks {
+			r.Violate(fmt.Sprintf("hygiene/%s/%s/%s/%s", c.Mode, sd.name, c.Params, firstDiffOp(c.Units, bare, got)), "when the program is over no connection sits in an open transaction or holds row locks (as with the bare driver)", loc,
+				fmt.Sprintf("open transactions: proxy %d bare %d; row locks: proxy %d bare %d\n%s", got.openTx, bare.openTx, got.locks, bare.locks, trace()))
+		}
+		if c.Mode == "mixed" && (lax || sameResults(bare.res, got.res)) && len(bare.marks) == len(got.marks) {
+			// plain units must reach the database exactly as on the bare driver
+			for ui, u := range c.Units {
+				if u.Ctx != "P" {
+					continue
+				}
+				bs, gs := bare.journal[bare.marks[ui]:bare.marks[ui+1]], got.journal[got.marks[ui]:got.marks[ui+1]]
+				same := len(bs) == len(gs)
+				for i := 0; same && i < len(bs); i++ {
+					same = bs[i] == gs[i]
+				}
+				if !same {
+					r.Violate(fmt.Sprintf("journal/mixed/%s/%s/%s/%s", sd.name, c.Params, u.Name(), firstJournalDiff(bs, gs)), "outside a global transaction the same statements reach the database in the same order with the same arguments", loc, trace())
+					break
+				}
+			}
 		}
 		if c.Mode == "outside" {
 			if got.tcReqs != 0 {
@@ -529,7 +700,7 @@ func evalCase(r *rep.Run, envs map[string]*sys.Env, c Case, idx int) {
 					}
 				}
 			}
-		} else if sameResults(bare.res, got.res) {
+		} else if c.Mode == "inside" && sameResults(bare.res, got.res) {
 			// inside: the bare journal must be a subsequence of the proxy journal; every extra line is a proxy duty
 			bi := 0
 			for _, l := range got.journal {
@@ -603,6 +774,22 @@ func opNameAt(us []Unit, i int) string {
 		}
 	}
 	return "?"
+}
+
+// unitCtxAt returns the context tag of the unit that produced result i.
+func unitCtxAt(us []Unit, i int) string {
+	k := 0
+	for _, u := range us {
+		n := len(u.Ops)
+		if u.Tx != "" {
+			n++
+		}
+		if i < k+n {
+			return u.Ctx
+		}
+		k += n
+	}
+	return ""
 }
 
 func firstDiffOp(us []Unit, a, b sideRun) string {
